@@ -10,20 +10,28 @@
 //                        really receives the datagram), `e` EAGAIN, `x` a hard error (EPERM); default `o`.
 //   * epoll_ctl       -> forwarded; the interest mask per fd is recorded (is EPOLLOUT armed?).
 //   * clock_gettime   -> CLOCK_MONOTONIC is virtual (moves only by `adv <ms>`), so idle expiry is exact.
-// Up to 8 raw UDP sockets ("peers", bound to 127.0.0.1:0) talk to the engine; what they receive (bytes, source) is what the
-// `S...` events print — i.e. the datagram as it arrived, not as it was handed to send().
+// 8 raw UDP sockets ("peers") talk to the engine: 0-4 on 127.0.0.1 (distinct ports), 5 and 6 on 127.0.0.2 with the SAME port numbers
+// as peers 0 and 1, 7 on [::1] with the port number of peer 0 — so the host part and the address family of a peer key matter.
+// What the peers receive (bytes, source) is what the `S...` events print — the datagram as it arrived, not as handed to send().
 //
 // Ops (one answer line each: `<events> | <state>`):
 //   reset [ms=N] [wq=N] [cob=0|1] [idle=S] [age=S] [stall=MS] [chunk=N] [batch=0|1] [et=0|1]     fresh engine
-//   listen                      addListener("127.0.0.1", 0)                   -> L<lid>
+//   listen | listen6            addListener("127.0.0.1" | "::1", 0)            -> L<lid>
 //   dg <lid> <p>:<pl>[,<p>:<pl>…]   peers send to listener lid, then ONE EPOLLIN on it
 //   cdg <sid> <pl>[,<pl>…]      the connected peer of client session sid sends to it, then ONE EPOLLIN on its socket
 //   connect <p> | via <lid> <p> | close <sid> | send <sid> <pl> <ok|eagain|err>
 //   wl <lid> <script> | wc <sid> <script>    EPOLLOUT on the listener / client socket (only if armed), script over o/e/x or `-`
 //   adv <ms> | gc | restart (stop() + start() of the same engine object)
+//   multi <ev> ; <ev> ; …       ONE epoll_wait return carrying several events, <ev> = dg … | cdg … | wl … | wc … | gc |
+//                               cmds <cmd> / <cmd> / … (k commands enqueued before the ONE eventfd event; <cmd> = connect|via|close|send …).
+//                               Like the kernel, the batch only contains events whose interest is armed when it is built; EPOLLIN and
+//                               EPOLLOUT of one socket are one event.  An event is delivered ONLY if the recorded epoll mask arms it:
+//                               EPOLLIN for dg/cdg, EPOLLOUT for wl/wc (a socket the engine stopped listening on stays silent).
+// send answers are matched to the sendto/send call by payload (len+crc) — a call whose bytes are nobody's payload is forwarded.
 // payload token <pl> = <len>.<hexpattern> (pattern repeated cyclically).  Events: A<sid>@<p> accept, N<sid>@<p> connected,
 // D<sid>:<len>:<crc32> data, X<sid>:<why> closed, E error(Socket), S<L<lid>|C<sid>>><p>:<len>:<crc32> datagram received by peer p.
-// State: n=<sessionsCurrent> ix=<p>><sid>,… s=<sid>c@<p>:<wq>:<wantWrite>|<sid>p@<p>/<owner>,… l=L<lid>:<wq>:<wantWrite>,…
+// State: n=<sessionsCurrent> ix=<p>><sid>,… s=<sid>c@<p>:<wq>:<wantWrite>:<in><out>|<sid>p@<p>/<owner>,… l=L<lid>:<wq>:<wantWrite>:<in><out>,…
+//        (<in><out> = EPOLLIN / EPOLLOUT bits of the mask last handed to epoll_ctl for that socket)
 // A failure of the machinery (cannot bind, kernel did not deliver a loopback datagram) prints `machinery:<why>`; the plugin
 // turns that into exit code 2, never into a VIOLATION.  An I/O thread that does not come back within the watchdog is `hang`.
 #include <algorithm>
@@ -185,17 +193,22 @@ static void deliverNoWait(int fd, std::uint32_t events)
   g_cv.notify_all();
 }
 
-static bool deliver(int fd, std::uint32_t events)
+static bool deliverMany(const std::vector<std::pair<int, std::uint32_t>>& evs);
+static bool deliver(int fd, std::uint32_t events) { return deliverMany({{fd, events}}); }
+static bool deliverMany(const std::vector<std::pair<int, std::uint32_t>>& evs)
 {
   g_opStartMs.store(realMs());
   struct Done { ~Done() { g_opStartMs.store(0); } } done;
   if (!waitParked()) return false;
   {
     std::lock_guard<std::mutex> lk(g_m);
-    epoll_event e{};
-    e.events = events;
-    e.data.fd = fd;
-    g_deliver.push_back(e);
+    for (auto& x : evs)
+    {
+      epoll_event e{};
+      e.events = x.second;
+      e.data.fd = x.first;
+      g_deliver.push_back(e);
+    }
     g_go = true;
   }
   g_cv.notify_all();
@@ -216,12 +229,14 @@ extern "C" int epoll_ctl(int epfd, int op, int fd, struct epoll_event* ev)
   }
   return real(epfd, op, fd, ev);
 }
-static bool armedOut(int fd)
+static bool armed(int fd, std::uint32_t bit)
 {
   std::lock_guard<std::mutex> g(g_maskM);
   auto it = g_mask.find(fd);
-  return it != g_mask.end() && (it->second & EPOLLOUT);
+  return it != g_mask.end() && (it->second & bit);
 }
+static bool armedOut(int fd) { return armed(fd, EPOLLOUT); }
+static bool armedIn(int fd) { return armed(fd, EPOLLIN); }
 
 // ------------------------------------------------------------------------------------------------ crc32
 static std::uint32_t crc32(const std::uint8_t* p, std::size_t n)
@@ -248,17 +263,40 @@ struct Ev
 {
   std::string text;
   bool isSent{false};
-  int destPort{0};
+  std::string destKey;
 };
 static std::vector<Ev> g_log;
-static std::deque<char> g_script;
-static unsigned long g_sendCalls = 0, g_injectedEagain = 0, g_injectedErr = 0, g_forwarded = 0, g_kernelRefused = 0;
+static std::deque<char> g_script;                  // positional answers (flush scripts of wl / wc)
+struct Keyed { std::size_t len; std::uint32_t crc; char ans; bool used; };
+static std::vector<Keyed> g_keyed;                 // answers for command sends, matched by payload
+static unsigned long g_sendCalls = 0, g_injectedEagain = 0, g_injectedErr = 0, g_forwarded = 0, g_kernelRefused = 0, g_unkeyed = 0;
 
-static int portOf(const sockaddr* sa)
+// numeric "host:port" of a socket address — the harness's OWN formatting (inet_ntop), independent of UdpEngine::key()
+static std::string addrKey(const sockaddr* sa)
 {
-  if (sa && sa->sa_family == AF_INET) return ntohs(reinterpret_cast<const sockaddr_in*>(sa)->sin_port);
-  if (sa && sa->sa_family == AF_INET6) return ntohs(reinterpret_cast<const sockaddr_in6*>(sa)->sin6_port);
-  return 0;
+  char h[INET6_ADDRSTRLEN] = {0};
+  if (sa && sa->sa_family == AF_INET)
+  {
+    auto* a = reinterpret_cast<const sockaddr_in*>(sa);
+    inet_ntop(AF_INET, &a->sin_addr, h, sizeof(h));
+    return std::string(h) + ":" + std::to_string(ntohs(a->sin_port));
+  }
+  if (sa && sa->sa_family == AF_INET6)
+  {
+    auto* a = reinterpret_cast<const sockaddr_in6*>(sa);
+    inet_ntop(AF_INET6, &a->sin6_addr, h, sizeof(h));
+    return std::string(h) + ":" + std::to_string(ntohs(a->sin6_port));
+  }
+  return "?";
+}
+static bool mkAddr(const std::string& host, int port, sockaddr_storage& ss, socklen_t& sl)
+{
+  std::memset(&ss, 0, sizeof(ss));
+  auto* a4 = reinterpret_cast<sockaddr_in*>(&ss);
+  auto* a6 = reinterpret_cast<sockaddr_in6*>(&ss);
+  if (inet_pton(AF_INET, host.c_str(), &a4->sin_addr) == 1) { a4->sin_family = AF_INET; a4->sin_port = htons((std::uint16_t)port); sl = sizeof(sockaddr_in); return true; }
+  if (inet_pton(AF_INET6, host.c_str(), &a6->sin6_addr) == 1) { a6->sin6_family = AF_INET6; a6->sin6_port = htons((std::uint16_t)port); sl = sizeof(sockaddr_in6); return true; }
+  return false;
 }
 
 typedef ssize_t (*sendto_t)(int, const void*, size_t, int, const struct sockaddr*, socklen_t);
@@ -266,11 +304,21 @@ typedef ssize_t (*send_t)(int, const void*, size_t, int);
 static sendto_t realSendto() { static sendto_t f = (sendto_t)dlsym(RTLD_NEXT, "sendto"); return f; }
 static send_t realSend() { static send_t f = (send_t)dlsym(RTLD_NEXT, "send"); return f; }
 
-static int scripted(size_t n)   // 0 forward, 1 EAGAIN, 2 error
+static int scripted(const void* buf, size_t n)   // 0 forward, 1 EAGAIN, 2 error
 {
   ++g_sendCalls;
-  char a = 'o';
-  if (!g_script.empty()) { a = g_script.front(); g_script.pop_front(); }
+  char a = 0;
+  if (!g_keyed.empty())
+  {
+    std::uint32_t c = crc32(static_cast<const std::uint8_t*>(buf), n);
+    for (auto& k : g_keyed)
+      if (!k.used && k.len == n && k.crc == c) { k.used = true; a = k.ans; break; }
+  }
+  if (a == 0)
+  {
+    if (!g_script.empty()) { a = g_script.front(); g_script.pop_front(); }
+    else { a = 'o'; ++g_unkeyed; }
+  }
   if (n > 65507) return 0;   // the kernel checks the size before anything else (EMSGSIZE): let it say so itself
   if (a == 'e') { ++g_injectedEagain; return 1; }
   if (a == 'x') { ++g_injectedErr; return 2; }
@@ -281,14 +329,14 @@ extern "C" ssize_t sendto(int fd, const void* buf, size_t n, int flags, const st
 {
   bool engine = g_stepA.load(std::memory_order_acquire) && !pthread_equal(pthread_self(), g_main);
   if (!engine) return realSendto()(fd, buf, n, flags, to, tl);
-  int a = scripted(n);
+  int a = scripted(buf, n);
   if (a == 1) { errno = EAGAIN; return -1; }
   if (a == 2) { errno = EPERM; return -1; }
-  ssize_t r = realSendto()(fd, buf, n, flags, to, tl);
+  ssize_t r = realSendto()(fd, buf, n, flags, to, tl);     // the engine's own flags go to the kernel untouched
   if (r >= 0)
   {
     ++g_forwarded;
-    Ev e; e.isSent = true; e.destPort = portOf(to);
+    Ev e; e.isSent = true; e.destKey = addrKey(to);
     g_log.push_back(e);
   }
   else ++g_kernelRefused;
@@ -299,7 +347,7 @@ extern "C" ssize_t send(int fd, const void* buf, size_t n, int flags)
 {
   bool engine = g_stepA.load(std::memory_order_acquire) && !pthread_equal(pthread_self(), g_main);
   if (!engine) return realSend()(fd, buf, n, flags);
-  int a = scripted(n);
+  int a = scripted(buf, n);
   if (a == 1) { errno = EAGAIN; return -1; }
   if (a == 2) { errno = EPERM; return -1; }
   ssize_t r = realSend()(fd, buf, n, flags);
@@ -308,7 +356,7 @@ extern "C" ssize_t send(int fd, const void* buf, size_t n, int flags)
     ++g_forwarded;
     sockaddr_storage ss{}; socklen_t sl = sizeof(ss);
     getpeername(fd, reinterpret_cast<sockaddr*>(&ss), &sl);
-    Ev e; e.isSent = true; e.destPort = portOf(reinterpret_cast<sockaddr*>(&ss));
+    Ev e; e.isSent = true; e.destKey = addrKey(reinterpret_cast<sockaddr*>(&ss));
     g_log.push_back(e);
   }
   else ++g_kernelRefused;
@@ -317,16 +365,18 @@ extern "C" ssize_t send(int fd, const void* buf, size_t n, int flags)
 
 // ------------------------------------------------------------------------------------------------ the world
 static const int kPeers = 8;
-static int g_peerFd[kPeers];
-static int g_peerPort[kPeers];
-static std::map<int, int> g_portToPeer;
+struct Peer { int fd{-1}; int family{AF_INET}; std::string host; int port{0}; std::string key; };
+static Peer g_peer[kPeers];
+static std::map<std::string, int> g_keyToPeer;
 static std::string g_machinery;           // non-empty: the machinery failed; every further answer repeats it
+static int g_lost = 0;                    // receipts that never arrived (a broken tree can lose many: do not wait long for each)
 
 struct World
 {
   std::unique_ptr<UdpEngine> eng;
   std::vector<iora::network::ListenerId> lids;     // case-level listener number (1-based) -> real id
-  std::map<int, std::string> srcName;              // local port of an engine socket -> L<lid> / C<sid>
+  std::vector<int> lfam;                            // its address family
+  std::map<std::string, std::string> srcName;      // local "host:port" of an engine socket -> L<lid> / C<sid>
   std::map<SessionId, int> clientPeer;             // client session -> peer index it is connected to
 };
 static World W;
@@ -347,31 +397,43 @@ static const char* whyName(TransportError e)
   }
 }
 
-static std::string peerName(int port)
+static std::string peerName(const std::string& key)
 {
-  auto it = g_portToPeer.find(port);
-  if (it != g_portToPeer.end()) return std::to_string(it->second);
-  return "?" ;
+  auto it = g_keyToPeer.find(key);
+  if (it != g_keyToPeer.end()) return std::to_string(it->second);
+  return "?";
+}
+static std::string peerNameOf(const TransportAddress& a) { return peerName(a.host + ":" + std::to_string(a.port)); }
+
+static bool bindPeer(int i, int family, const std::string& host, int wantPort)
+{
+  for (int attempt = 0; attempt < 2; ++attempt)
+  {
+    int fd = socket(family, SOCK_DGRAM | SOCK_CLOEXEC, 0);
+    if (fd < 0) return false;
+    int big = 4 * 1024 * 1024;
+    setsockopt(fd, SOL_SOCKET, SO_RCVBUF, &big, sizeof(big));
+    sockaddr_storage ss{}; socklen_t sl = 0;
+    if (!mkAddr(host, attempt == 0 ? wantPort : 0, ss, sl)) { close(fd); return false; }
+    if (bind(fd, reinterpret_cast<sockaddr*>(&ss), sl) != 0) { close(fd); if (wantPort == 0) return false; continue; }
+    sl = sizeof(ss);
+    if (getsockname(fd, reinterpret_cast<sockaddr*>(&ss), &sl) != 0) { close(fd); return false; }
+    g_peer[i].fd = fd; g_peer[i].family = family; g_peer[i].host = host;
+    g_peer[i].port = family == AF_INET ? ntohs(reinterpret_cast<sockaddr_in*>(&ss)->sin_port) : ntohs(reinterpret_cast<sockaddr_in6*>(&ss)->sin6_port);
+    g_peer[i].key = addrKey(reinterpret_cast<sockaddr*>(&ss));
+    g_keyToPeer[g_peer[i].key] = i;
+    return true;
+  }
+  return false;
 }
 
 static bool initPeers()
 {
-  for (int i = 0; i < kPeers; ++i)
-  {
-    int fd = socket(AF_INET, SOCK_DGRAM | SOCK_CLOEXEC, 0);
-    if (fd < 0) return false;
-    int big = 4 * 1024 * 1024;
-    setsockopt(fd, SOL_SOCKET, SO_RCVBUF, &big, sizeof(big));
-    sockaddr_in me{};
-    me.sin_family = AF_INET;
-    me.sin_addr.s_addr = htonl(INADDR_LOOPBACK);
-    if (bind(fd, reinterpret_cast<sockaddr*>(&me), sizeof(me)) != 0) return false;
-    socklen_t sl = sizeof(me);
-    if (getsockname(fd, reinterpret_cast<sockaddr*>(&me), &sl) != 0) return false;
-    g_peerFd[i] = fd;
-    g_peerPort[i] = ntohs(me.sin_port);
-    g_portToPeer[g_peerPort[i]] = i;
-  }
+  for (int i = 0; i < 5; ++i)
+    if (!bindPeer(i, AF_INET, "127.0.0.1", 0)) return false;
+  if (!bindPeer(5, AF_INET, "127.0.0.2", g_peer[0].port)) return false;     // same port as peer 0, other host
+  if (!bindPeer(6, AF_INET, "127.0.0.2", g_peer[1].port)) return false;
+  if (!bindPeer(7, AF_INET6, "::1", g_peer[0].port)) return false;           // same port as peer 0, other family
   return true;
 }
 
@@ -379,7 +441,7 @@ static void drainPeers()
 {
   std::vector<std::uint8_t> buf(70000);
   for (int i = 0; i < kPeers; ++i)
-    while (recv(g_peerFd[i], buf.data(), buf.size(), MSG_DONTWAIT) >= 0) {}
+    while (recv(g_peer[i].fd, buf.data(), buf.size(), MSG_DONTWAIT) >= 0) {}
 }
 
 static void stopEngine()
@@ -391,10 +453,12 @@ static void stopEngine()
   W.eng.reset();
   { std::lock_guard<std::mutex> g(g_maskM); g_mask.clear(); }
   W.lids.clear();
+  W.lfam.clear();
   W.srcName.clear();
   W.clientPeer.clear();
   g_log.clear();
   g_script.clear();
+  g_keyed.clear();
 }
 
 static bool expand(const std::string& tok, vh::Bytes& out)
@@ -421,14 +485,12 @@ static long rmem(int fd)
   return (long)v[0];   // SK_MEMINFO_RMEM_ALLOC
 }
 
-static bool rawSendAndWait(int peer, int toPort, int dstFd, const vh::Bytes& pl)
+static bool rawSendAndWait(int peer, const std::string& host, int toPort, int dstFd, const vh::Bytes& pl)
 {
-  sockaddr_in to{};
-  to.sin_family = AF_INET;
-  to.sin_port = htons((std::uint16_t)toPort);
-  to.sin_addr.s_addr = htonl(INADDR_LOOPBACK);
+  sockaddr_storage to{}; socklen_t tl = 0;
+  if (!mkAddr(host, toPort, to, tl)) { g_machinery = "bad-destination-address"; return false; }
   long before = rmem(dstFd);
-  ssize_t r = realSendto()(g_peerFd[peer], pl.data(), pl.size(), 0, reinterpret_cast<sockaddr*>(&to), sizeof(to));
+  ssize_t r = realSendto()(g_peer[peer].fd, pl.data(), pl.size(), 0, reinterpret_cast<sockaddr*>(&to), tl);
   if (r != (ssize_t)pl.size()) { g_machinery = "raw-sendto-failed:" + std::to_string(errno); return false; }
   long long t0 = realMs();
   for (;;)
@@ -451,30 +513,33 @@ static bool rawSendAndWait(int peer, int toPort, int dstFd, const vh::Bytes& pl)
 // printed from the datagram the raw peer actually RECEIVED.
 static std::string collect()
 {
-  std::map<int, std::deque<std::string>> receipts;    // peer port -> receipts in arrival order
-  std::map<int, int> expect;
+  std::map<std::string, std::deque<std::string>> receipts;    // peer key -> receipts in arrival order
+  std::map<std::string, int> expect;
   for (auto& e : g_log)
-    if (e.isSent) expect[e.destPort]++;
+    if (e.isSent) expect[e.destKey]++;
   std::vector<std::uint8_t> buf(70000);
   for (auto& kv : expect)
   {
-    auto pit = g_portToPeer.find(kv.first);
-    if (pit == g_portToPeer.end()) continue;          // sent to something that is not one of our peers
-    int fd = g_peerFd[pit->second];
+    auto pit = g_keyToPeer.find(kv.first);
+    if (pit == g_keyToPeer.end()) continue;          // sent to something that is not one of our peers
+    int fd = g_peer[pit->second].fd;
     for (int k = 0; k < kv.second; ++k)
     {
+      // the kernel accepted the datagram, so it is normally already queued; wait generously the first time one is missing, then
+      // (a broken tree, e.g. a corked socket, loses every one of them) only briefly, then not at all: bounded work
+      int waitMs = g_lost == 0 ? kKernelMs : g_lost < 8 ? 200 : 0;
       pollfd p{fd, POLLIN, 0};
-      if (poll(&p, 1, kKernelMs) <= 0) break;
-      sockaddr_in from{}; socklen_t fl = sizeof(from);
+      if (poll(&p, 1, waitMs) <= 0) { ++g_lost; break; }
+      sockaddr_storage from{}; socklen_t fl = sizeof(from);
       ssize_t n = recvfrom(fd, buf.data(), buf.size(), MSG_DONTWAIT, reinterpret_cast<sockaddr*>(&from), &fl);
-      if (n < 0) break;
-      auto sn = W.srcName.find(ntohs(from.sin_port));
+      if (n < 0) { ++g_lost; break; }
+      auto sn = W.srcName.find(addrKey(reinterpret_cast<sockaddr*>(&from)));
       std::string src = sn == W.srcName.end() ? "?" : sn->second;
       receipts[kv.first].push_back("S" + src + ">" + peerName(kv.first) + ":" + std::to_string(n) + ":" + std::to_string(crc32(buf.data(), (size_t)n)));
     }
   }
   std::vector<std::string> out;
-  std::vector<std::string> closes;    // consecutive close events are sorted (GC closes in hash order)
+  std::vector<std::string> closes;    // consecutive close events are sorted (GC / shutdown close in hash order)
   auto flushCloses = [&] { std::sort(closes.begin(), closes.end(), [](const std::string& a, const std::string& b) {
                                return std::stoul(a.substr(1)) < std::stoul(b.substr(1)); });
                            for (auto& c : closes) out.push_back(c); closes.clear(); };
@@ -488,8 +553,8 @@ static std::string collect()
       continue;
     }
     flushCloses();
-    auto& q = receipts[e.destPort];
-    if (q.empty()) out.push_back("S?lost>" + peerName(e.destPort));
+    auto& q = receipts[e.destKey];
+    if (q.empty()) out.push_back("S?lost>" + peerName(e.destKey));
     else { out.push_back(q.front()); q.pop_front(); }
   }
   flushCloses();
@@ -498,8 +563,8 @@ static std::string collect()
   {
     for (;;)
     {
-      sockaddr_in from{}; socklen_t fl = sizeof(from);
-      ssize_t n = recvfrom(g_peerFd[i], buf.data(), buf.size(), MSG_DONTWAIT, reinterpret_cast<sockaddr*>(&from), &fl);
+      sockaddr_storage from{}; socklen_t fl = sizeof(from);
+      ssize_t n = recvfrom(g_peer[i].fd, buf.data(), buf.size(), MSG_DONTWAIT, reinterpret_cast<sockaddr*>(&from), &fl);
       if (n < 0) break;
       out.push_back("S?extra>" + std::to_string(i) + ":" + std::to_string(n) + ":" + std::to_string(crc32(buf.data(), (size_t)n)));
     }
@@ -518,19 +583,16 @@ static int lidNumber(iora::network::ListenerId real)
   return 0;
 }
 
+static std::string maskBits(int fd) { return std::string(armedIn(fd) ? "1" : "0") + (armedOut(fd) ? "1" : "0"); }
+
 static std::string stateLine()
 {
   UdpEngine& e = *W.eng;
   std::ostringstream o;
   o << "n=" << e._atomicStats.sessionsCurrent.load() << " ix=";
   std::vector<std::pair<std::string, SessionId>> ix;
-  for (auto& kv : e._peerIndex)
-  {
-    auto c = kv.first.rfind(':');
-    int port = c == std::string::npos ? 0 : std::atoi(kv.first.c_str() + c + 1);
-    ix.emplace_back(peerName(port), kv.second);
-  }
-  std::sort(ix.begin(), ix.end(), [](auto& a, auto& b) { return std::atoi(a.first.c_str()) < std::atoi(b.first.c_str()); });
+  for (auto& kv : e._peerIndex) ix.emplace_back(peerName(kv.first), kv.second);
+  std::sort(ix.begin(), ix.end(), [](auto& a, auto& b) { return std::make_pair(std::atoi(a.first.c_str()), a.second) < std::make_pair(std::atoi(b.first.c_str()), b.second); });
   for (std::size_t i = 0; i < ix.size(); ++i) o << (i ? "," : "") << ix[i].first << ">" << ix[i].second;
   o << " s=";
   std::vector<SessionId> sids;
@@ -546,15 +608,14 @@ static std::string stateLine()
     if (s->role == iora::network::Role::ClientConnected)
     {
       sockaddr_storage ss{}; socklen_t sl = sizeof(ss);
-      int port = 0;
-      if (getpeername(s->fd, reinterpret_cast<sockaddr*>(&ss), &sl) == 0) port = portOf(reinterpret_cast<sockaddr*>(&ss));
-      o << sid << "c@" << peerName(port) << ":" << s->wq.size() << ":" << (s->wantWrite ? 1 : 0);
+      std::string k = "?";
+      if (getpeername(s->fd, reinterpret_cast<sockaddr*>(&ss), &sl) == 0) k = addrKey(reinterpret_cast<sockaddr*>(&ss));
+      o << sid << "c@" << peerName(k) << ":" << s->wq.size() << ":" << (s->wantWrite ? 1 : 0) << ":" << maskBits(s->fd);
     }
     else
     {
-      auto c = s->pkey.rfind(':');
-      int port = c == std::string::npos ? 0 : std::atoi(s->pkey.c_str() + c + 1);
-      o << sid << "p@" << peerName(port) << "/" << lidNumber(s->owner);
+      // the address the session would SEND to (its stored sockaddr), not the index key
+      o << sid << "p@" << peerName(addrKey(reinterpret_cast<sockaddr*>(&s->peer))) << "/" << lidNumber(s->owner);
     }
   }
   o << " l=";
@@ -565,7 +626,7 @@ static std::string stateLine()
     if (it == e._listeners.end()) continue;            // closed by a restart
     if (!firstL) o << ",";
     firstL = false;
-    o << "L" << (i + 1) << ":" << it->second->wq.size() << ":" << (it->second->wantWrite ? 1 : 0);
+    o << "L" << (i + 1) << ":" << it->second->wq.size() << ":" << (it->second->wantWrite ? 1 : 0) << ":" << maskBits(it->second->fd);
   }
   return o.str();
 }
@@ -589,7 +650,12 @@ static bool parseScript(const std::string& s)
   return true;
 }
 
-static std::string answer() { return collect() + " | " + stateLine(); }
+static std::string answer()
+{
+  g_script.clear();
+  g_keyed.clear();
+  return collect() + " | " + stateLine();
+}
 
 static std::string doReset(const std::vector<std::string>& t)
 {
@@ -618,8 +684,8 @@ static std::string doReset(const std::vector<std::string>& t)
   g_virtual.store(true);
   W.eng = std::make_unique<UdpEngine>(cfg);
   iora::network::detail::EngineBase::Callbacks cbs;
-  cbs.onAccept = [](SessionId s, const TransportAddress& a) { Ev e; e.text = "A" + std::to_string(s) + "@" + peerName(a.port); g_log.push_back(e); };
-  cbs.onConnect = [](SessionId s, const TransportAddress& a) { Ev e; e.text = "N" + std::to_string(s) + "@" + peerName(a.port); g_log.push_back(e); };
+  cbs.onAccept = [](SessionId s, const TransportAddress& a) { Ev e; e.text = "A" + std::to_string(s) + "@" + peerNameOf(a); g_log.push_back(e); };
+  cbs.onConnect = [](SessionId s, const TransportAddress& a) { Ev e; e.text = "N" + std::to_string(s) + "@" + peerNameOf(a); g_log.push_back(e); };
   cbs.onData = [](SessionId s, iora::core::BufferView d, std::chrono::steady_clock::time_point) {
     Ev e; e.text = "D" + std::to_string(s) + ":" + std::to_string(d.size()) + ":" + std::to_string(crc32(reinterpret_cast<const std::uint8_t*>(d.data()), d.size()));
     g_log.push_back(e); };
@@ -636,6 +702,139 @@ static std::string doReset(const std::vector<std::string>& t)
   return "ok";
 }
 
+// ---- pieces shared by the single ops and by `multi`
+static int listenerFd(unsigned long long lid)
+{
+  if (lid < 1 || lid > W.lids.size()) return -1;
+  auto it = W.eng->_listeners.find(W.lids[lid - 1]);
+  return it == W.eng->_listeners.end() ? -1 : it->second->fd;
+}
+static int clientFd(unsigned long long sid)
+{
+  auto it = W.eng->_sessions.find((SessionId)sid);
+  if (it == W.eng->_sessions.end() || !it->second || it->second->role != iora::network::Role::ClientConnected) return -1;
+  return it->second->fd;
+}
+
+// raw peers send to listener `lid`; returns -2 bad-op, -3 machinery, -1 nothing can arrive, else the listener fd
+static int prepDg(unsigned long long lid, const std::string& spec)
+{
+  std::vector<std::pair<int, vh::Bytes>> dgs;
+  std::stringstream ss(spec);
+  std::string item;
+  while (std::getline(ss, item, ','))
+  {
+    auto c = item.find(':');
+    unsigned long long p;
+    vh::Bytes pl;
+    if (c == std::string::npos || !vh::parseNat(item.substr(0, c), p) || p >= (unsigned)kPeers || !expand(item.substr(c + 1), pl)) return -2;
+    dgs.emplace_back((int)p, std::move(pl));
+  }
+  int lfd = listenerFd(lid);
+  if (lfd < 0) return -1;
+  auto la = W.eng->getListenerAddress(W.lids[lid - 1]);
+  for (auto& d : dgs)
+  {
+    if (g_peer[d.first].family != W.lfam[lid - 1]) return -2;      // a v4 socket cannot reach a v6-only listener and vice versa
+    if (!rawSendAndWait(d.first, la.host, la.port, lfd, d.second)) return -3;
+  }
+  return lfd;
+}
+static int prepCdg(unsigned long long sid, const std::string& spec)
+{
+  std::vector<vh::Bytes> dgs;
+  std::stringstream ss(spec);
+  std::string item;
+  while (std::getline(ss, item, ','))
+  {
+    vh::Bytes pl;
+    if (!expand(item, pl)) return -2;
+    dgs.push_back(std::move(pl));
+  }
+  int cfd = clientFd(sid);
+  auto cp = W.clientPeer.find((SessionId)sid);
+  if (cfd < 0 || cp == W.clientPeer.end()) return -1;
+  auto la = W.eng->getLocalAddress((SessionId)sid);
+  for (auto& d : dgs)
+    if (!rawSendAndWait(cp->second, la.host, la.port, cfd, d)) return -3;
+  return cfd;
+}
+// one API call that enqueues a command; returns "" on success, else the answer to give
+static std::vector<std::pair<SessionId, int>> g_newClients;   // connect() ids whose local address is recorded after the step
+static std::string enqueueCmd(const std::vector<std::string>& t)
+{
+  UdpEngine& e = *W.eng;
+  unsigned long long a = 0, b = 0;
+  if (t.size() == 2 && t[0] == "connect" && vh::parseNat(t[1], a) && a < (unsigned)kPeers)
+  {
+    auto r = e.connect(g_peer[a].host, (std::uint16_t)g_peer[a].port, iora::network::TlsMode::None);
+    if (!r.isOk()) return "connect-refused";
+    g_newClients.emplace_back(r.value(), (int)a);
+    return "";
+  }
+  if (t.size() == 3 && t[0] == "via" && vh::parseNat(t[1], a) && vh::parseNat(t[2], b) && b < (unsigned)kPeers)
+  {
+    iora::network::ListenerId real = (a >= 1 && a <= W.lids.size()) ? W.lids[a - 1] : (iora::network::ListenerId)(1000000 + a);
+    auto r = e.connectViaListener(real, g_peer[b].host, (std::uint16_t)g_peer[b].port);
+    return r.isOk() ? "" : "via-refused";
+  }
+  if (t.size() == 2 && t[0] == "close" && vh::parseNat(t[1], a))
+    return e.close((SessionId)a) ? "" : "close-refused";
+  if (t.size() == 4 && t[0] == "send" && vh::parseNat(t[1], a))
+  {
+    vh::Bytes pl;
+    if (!expand(t[2], pl)) return "bad-op";
+    char ans = t[3] == "ok" ? 'o' : t[3] == "eagain" ? 'e' : t[3] == "err" ? 'x' : 0;
+    if (!ans) return "bad-op";
+    if (pl.empty()) { (void)e.send((SessionId)a, pl.data(), 0); return ""; }     // accepted, nothing queued
+    g_keyed.push_back(Keyed{pl.size(), crc32(pl.data(), pl.size()), ans, false});
+    return e.send((SessionId)a, pl.data(), pl.size()) ? "" : "send-refused";
+  }
+  return "bad-op";
+}
+static void recordNewClients()
+{
+  for (auto& nc : g_newClients)
+  {
+    auto la = W.eng->getLocalAddress(nc.first);
+    if (la.port) { W.srcName[la.host + ":" + std::to_string(la.port)] = "C" + std::to_string(nc.first); W.clientPeer[nc.first] = nc.second; }
+  }
+  g_newClients.clear();
+}
+
+static std::string doListen(bool v6)
+{
+  UdpEngine& e = *W.eng;
+  auto before = e._atomicStats.commands.load();
+  auto fut = std::async(std::launch::async, [&e, v6] { return e.addListener(v6 ? "::1" : "127.0.0.1", 0, iora::network::TlsMode::None); });
+  long long t0 = realMs();
+  while (e._atomicStats.commands.load() == before)
+  {
+    usleep(50);
+    if (realMs() - t0 > kWatchdogMs) hang("listen-enqueue");
+  }
+  if (!deliver(e._eventFd, EPOLLIN)) hang("listen");
+  auto r = fut.get();
+  if (!r.isOk()) { g_machinery = v6 ? "cannot-bind-ipv6-loopback" : "cannot-bind-loopback"; return "machinery:" + g_machinery; }
+  W.lids.push_back(r.value());
+  W.lfam.push_back(v6 ? AF_INET6 : AF_INET);
+  auto la = e.getListenerAddress(r.value());
+  W.srcName[la.host + ":" + std::to_string(la.port)] = "L" + std::to_string(W.lids.size());
+  g_log.clear();
+  return "L" + std::to_string(W.lids.size()) + " | " + stateLine();
+}
+
+static std::vector<std::vector<std::string>> splitToks(const std::vector<std::string>& t, std::size_t from, const std::string& sep)
+{
+  std::vector<std::vector<std::string>> out(1);
+  for (std::size_t i = from; i < t.size(); ++i)
+  {
+    if (t[i] == sep) out.emplace_back();
+    else out.back().push_back(t[i]);
+  }
+  return out;
+}
+
 static std::string step(const std::vector<std::string>& t)
 {
   if (!g_machinery.empty()) return "machinery:" + g_machinery;
@@ -647,134 +846,94 @@ static std::string step(const std::vector<std::string>& t)
   if (op == "reset") return doReset(t);
   if (!W.eng) return "bad-op";
   UdpEngine& e = *W.eng;
-  unsigned long long a = 0, b = 0;
-  if (op == "listen" && t.size() == 1)
-  {
-    auto before = e._atomicStats.commands.load();
-    auto fut = std::async(std::launch::async, [&e] { return e.addListener("127.0.0.1", 0, iora::network::TlsMode::None); });
-    long long t0 = realMs();
-    while (e._atomicStats.commands.load() == before)
-    {
-      usleep(50);
-      if (realMs() - t0 > kWatchdogMs) hang("listen-enqueue");
-    }
-    if (!deliver(e._eventFd, EPOLLIN)) hang("listen");
-    auto r = fut.get();
-    if (!r.isOk()) { g_machinery = "cannot-bind-loopback"; return "machinery:" + g_machinery; }
-    W.lids.push_back(r.value());
-    auto la = e.getListenerAddress(r.value());
-    W.srcName[la.port] = "L" + std::to_string(W.lids.size());
-    g_log.clear();
-    return "L" + std::to_string(W.lids.size()) + " | " + stateLine();
-  }
+  unsigned long long a = 0;
+  if (op == "listen" && t.size() == 1) return doListen(false);
+  if (op == "listen6" && t.size() == 1) return doListen(true);
   if (op == "dg" && t.size() == 3 && vh::parseNat(t[1], a))
   {
-    std::vector<std::pair<int, vh::Bytes>> dgs;
-    std::stringstream ss(t[2]);
-    std::string item;
-    while (std::getline(ss, item, ','))
-    {
-      auto c = item.find(':');
-      unsigned long long p;
-      vh::Bytes pl;
-      if (c == std::string::npos || !vh::parseNat(item.substr(0, c), p) || p >= (unsigned)kPeers || !expand(item.substr(c + 1), pl)) return "bad-op";
-      dgs.emplace_back((int)p, std::move(pl));
-    }
-    if (a == 0 || a > W.lids.size()) return answer();            // no such listener: nothing can arrive
-    auto it = e._listeners.find(W.lids[a - 1]);
-    if (it == e._listeners.end()) return answer();
-    int lfd = it->second->fd;
-    int lport = e.getListenerAddress(W.lids[a - 1]).port;
-    for (auto& d : dgs)
-      if (!rawSendAndWait(d.first, lport, lfd, d.second)) return "machinery:" + g_machinery;
-    if (!deliver(lfd, EPOLLIN)) hang("dg");
+    int fd = prepDg(a, t[2]);
+    if (fd == -2) return "bad-op";
+    if (fd == -3) return "machinery:" + g_machinery;
+    if (fd >= 0 && armedIn(fd) && !deliver(fd, EPOLLIN)) hang("dg");     // a socket without EPOLLIN interest is never reported readable
     return answer();
   }
   if (op == "cdg" && t.size() == 3 && vh::parseNat(t[1], a))
   {
-    std::vector<vh::Bytes> dgs;
-    std::stringstream ss(t[2]);
-    std::string item;
-    while (std::getline(ss, item, ','))
-    {
-      vh::Bytes pl;
-      if (!expand(item, pl)) return "bad-op";
-      dgs.push_back(std::move(pl));
-    }
-    auto it = e._sessions.find((SessionId)a);
-    auto cp = W.clientPeer.find((SessionId)a);
-    if (it == e._sessions.end() || !it->second || it->second->role != iora::network::Role::ClientConnected || cp == W.clientPeer.end())
-      return answer();                                             // no such client socket: nothing can arrive
-    int cfd = it->second->fd;
-    int cport = e.getLocalAddress((SessionId)a).port;
-    for (auto& d : dgs)
-      if (!rawSendAndWait(cp->second, cport, cfd, d)) return "machinery:" + g_machinery;
-    if (!deliver(cfd, EPOLLIN)) hang("cdg");
+    int fd = prepCdg(a, t[2]);
+    if (fd == -2) return "bad-op";
+    if (fd == -3) return "machinery:" + g_machinery;
+    if (fd >= 0 && armedIn(fd) && !deliver(fd, EPOLLIN)) hang("cdg");
     return answer();
   }
-  if (op == "connect" && t.size() == 2 && vh::parseNat(t[1], a) && a < (unsigned)kPeers)
+  if (op == "connect" || op == "via" || op == "close" || op == "send")
   {
-    auto r = e.connect("127.0.0.1", (std::uint16_t)g_peerPort[a], iora::network::TlsMode::None);
-    if (!r.isOk()) return "connect-refused";
-    if (!deliver(e._eventFd, EPOLLIN)) hang("connect");
-    auto la = e.getLocalAddress(r.value());
-    if (la.port) { W.srcName[la.port] = "C" + std::to_string(r.value()); W.clientPeer[r.value()] = (int)a; }
-    return answer();
-  }
-  if (op == "via" && t.size() == 3 && vh::parseNat(t[1], a) && vh::parseNat(t[2], b) && b < (unsigned)kPeers)
-  {
-    iora::network::ListenerId real = (a >= 1 && a <= W.lids.size()) ? W.lids[a - 1] : (iora::network::ListenerId)(1000000 + a);
-    auto r = e.connectViaListener(real, "127.0.0.1", (std::uint16_t)g_peerPort[b]);
-    if (!r.isOk()) return "via-refused";
-    if (!deliver(e._eventFd, EPOLLIN)) hang("via");
-    return answer();
-  }
-  if (op == "close" && t.size() == 2 && vh::parseNat(t[1], a))
-  {
-    if (!e.close((SessionId)a)) return "close-refused";
-    if (!deliver(e._eventFd, EPOLLIN)) hang("close");
-    return answer();
-  }
-  if (op == "send" && t.size() == 4 && vh::parseNat(t[1], a))
-  {
-    vh::Bytes pl;
-    if (!expand(t[2], pl)) return "bad-op";
-    if (t[3] == "ok") parseScript("o");
-    else if (t[3] == "eagain") parseScript("e");
-    else if (t[3] == "err") parseScript("x");
-    else return "bad-op";
-    if (pl.empty())
-    {
-      bool ok = e.send((SessionId)a, pl.data(), 0);    // accepted, nothing queued, nothing to step
-      (void)ok;
-      g_script.clear();
-      return answer();
-    }
-    if (!e.send((SessionId)a, pl.data(), pl.size())) return "send-refused";
-    if (!deliver(e._eventFd, EPOLLIN)) hang("send");
-    g_script.clear();
+    bool emptySend = false;
+    if (op == "send" && t.size() == 4) { vh::Bytes pl; if (expand(t[2], pl) && pl.empty()) emptySend = true; }
+    std::string r = enqueueCmd(t);
+    if (!r.empty()) { g_keyed.clear(); return r; }
+    if (!emptySend && !deliver(e._eventFd, EPOLLIN)) hang(op);
+    recordNewClients();
     return answer();
   }
   if ((op == "wl" || op == "wc") && t.size() == 3 && vh::parseNat(t[1], a))
   {
     if (!parseScript(t[2])) return "bad-op";
-    int fd = -1;
-    if (op == "wl")
-    {
-      if (a >= 1 && a <= W.lids.size())
-      {
-        auto it = e._listeners.find(W.lids[a - 1]);
-        if (it != e._listeners.end()) fd = it->second->fd;
-      }
-    }
-    else
-    {
-      auto it = e._sessions.find((SessionId)a);
-      if (it != e._sessions.end() && it->second && it->second->role == iora::network::Role::ClientConnected) fd = it->second->fd;
-    }
+    int fd = op == "wl" ? listenerFd(a) : clientFd(a);
     if (fd >= 0 && armedOut(fd))
       if (!deliver(fd, EPOLLOUT)) hang(op);
-    g_script.clear();
+    return answer();
+  }
+  if (op == "multi")
+  {
+    // build ONE epoll batch: events whose interest is armed NOW, one event per descriptor (IN|OUT merged), in the listed order
+    std::vector<std::pair<int, std::uint32_t>> evs;
+    auto add = [&evs](int fd, std::uint32_t bit) {
+      for (auto& x : evs) if (x.first == fd) { x.second |= bit; return; }
+      evs.emplace_back(fd, bit);
+    };
+    bool haveCmds = false, haveScript = false;
+    for (auto& ev : splitToks(t, 1, ";"))
+    {
+      if (ev.empty()) return "bad-op";
+      unsigned long long x = 0;
+      if (ev[0] == "dg" && ev.size() == 3 && vh::parseNat(ev[1], x))
+      {
+        int fd = prepDg(x, ev[2]);
+        if (fd == -2) return "bad-op";
+        if (fd == -3) return "machinery:" + g_machinery;
+        if (fd >= 0 && armedIn(fd)) add(fd, EPOLLIN);
+      }
+      else if (ev[0] == "cdg" && ev.size() == 3 && vh::parseNat(ev[1], x))
+      {
+        int fd = prepCdg(x, ev[2]);
+        if (fd == -2) return "bad-op";
+        if (fd == -3) return "machinery:" + g_machinery;
+        if (fd >= 0 && armedIn(fd)) add(fd, EPOLLIN);
+      }
+      else if ((ev[0] == "wl" || ev[0] == "wc") && ev.size() == 3 && vh::parseNat(ev[1], x))
+      {
+        if (haveScript || !parseScript(ev[2])) return "bad-op";       // one positional flush script per batch
+        haveScript = true;
+        int fd = ev[0] == "wl" ? listenerFd(x) : clientFd(x);
+        if (fd >= 0 && armedOut(fd)) add(fd, EPOLLOUT);
+        else g_script.clear();
+      }
+      else if (ev[0] == "gc" && ev.size() == 1) add(e._timerFd, EPOLLIN);
+      else if (ev[0] == "cmds")
+      {
+        if (haveCmds) return "bad-op";
+        haveCmds = true;
+        for (auto& c : splitToks(ev, 1, "/"))
+        {
+          std::string r = enqueueCmd(c);
+          if (!r.empty()) { g_keyed.clear(); return r; }
+        }
+        add(e._eventFd, EPOLLIN);
+      }
+      else return "bad-op";
+    }
+    if (!evs.empty() && !deliverMany(evs)) hang("multi");
+    recordNewClients();
     return answer();
   }
   if (op == "adv" && t.size() == 2 && vh::parseNat(t[1], a))
@@ -813,7 +972,7 @@ int main()
 {
   g_main = pthread_self();
   signal(SIGPIPE, SIG_IGN);
-  if (!initPeers()) g_machinery = "cannot-bind-loopback-peers";
+  if (!initPeers()) g_machinery = "cannot-bind-loopback-peers(127.0.0.1/127.0.0.2/::1)";
   if (std::getenv("C06_FORCE_MACHINERY_FAILURE")) g_machinery = "forced-by-environment";   // self-test of the exit-2 path
   std::thread(watchdogMain).detach();
   int rc = vh::runLines([](const std::vector<std::string>& t) -> std::string {
@@ -822,7 +981,7 @@ int main()
     catch (...) { return "throw ?"; }
   });
   stopEngine();
-  std::fprintf(stderr, "interposers: parks=%lu sendCalls=%lu eagain=%lu err=%lu forwarded=%lu kernelRefused=%lu\n", g_parks, g_sendCalls,
-               g_injectedEagain, g_injectedErr, g_forwarded, g_kernelRefused);
+  std::fprintf(stderr, "interposers: parks=%lu sendCalls=%lu eagain=%lu err=%lu forwarded=%lu kernelRefused=%lu unscripted=%lu lostReceipts=%d\n", g_parks, g_sendCalls,
+               g_injectedEagain, g_injectedErr, g_forwarded, g_kernelRefused, g_unkeyed, g_lost);
   return rc;
 }
